@@ -23,7 +23,8 @@ import (
 )
 
 // ops: [0, n, c]            open connection c on node n
-//      [1, n, c, kind]      authenticated handshake on c (both phases), kind 0 = "control", 1 = "tunnel", 2 = connection_type omitted
+//      [1, n, c, kind]      authenticated handshake on c (both phases), kind 0 = "control", 1 = "tunnel", 2 = connection_type omitted,
+//                           3 = "control" whose final (success) response cannot be written: not a successful handshake
 //      [2, n, c]            CloseConnection(c) on node n
 //      [3, n, c]            heartbeat on c
 type realIn struct {
@@ -67,9 +68,10 @@ func runRealAuth(in realIn) *realOut {
 	must(err)
 	x, secret := cl.ID, cl.SecretKeyPlaintext
 
+	trs := map[[2]int]*transport{}
 	handshake := func(n, c, kind int) error {
 		sm := fx[n].Session
-		ct := map[int]string{0: "control", 1: "tunnel", 2: ""}[kind]
+		ct := map[int]string{0: "control", 1: "tunnel", 2: "", 3: "control"}[kind]
 		send := func(resp string) error {
 			req := map[string]interface{}{"client_id": x, "version": "V3", "protocol": "tcp"}
 			if ct != "" {
@@ -89,22 +91,32 @@ func runRealAuth(in realIn) *realOut {
 		if cc == nil {
 			return fmt.Errorf("no control connection object after phase 1")
 		}
+		if kind == 3 {
+			if t := trs[[2]int{n, c}]; t != nil {
+				t.fail = true
+			}
+		}
 		return send(hmacHex(secret, cc.GetPendingChallenge()))
 	}
 
 	// ghost: the client's registered control connection (only control-type / untyped handshakes are logins)
 	curN, curC, curOK := 0, 0, false
+	lost := false // a handshake whose response was lost has happened
 	for i, o := range in.Ops {
 		n, c := arg(o, 1), arg(o, 2)
 		var err error
 		switch arg(o, 0) {
 		case 0:
 			t := &transport{id: connName(c)}
+			trs[[2]int{n, c}] = t
 			_, err = fx[n].Session.AcceptConnection(t, t)
 		case 1:
 			err = handshake(n, c, arg(o, 3))
-			if err == nil && arg(o, 3) != 1 {
+			if err == nil && arg(o, 3) != 1 && arg(o, 3) != 3 {
 				curN, curC, curOK = n, c, true
+			}
+			if arg(o, 3) == 3 {
+				lost = true
 			}
 		case 2:
 			err = fx[n].Session.CloseConnection(connName(c))
@@ -142,6 +154,9 @@ func runRealAuth(in realIn) *realOut {
 					if arg(o, 0) == 2 {
 						key = "tunnel-close-deletes-runtime-state"
 					}
+					if lost {
+						key = "unanswered-handshake-moves-runtime-state"
+					}
 					out.PropOK, out.PropKey = false, key
 					out.PropMsg = fmt.Sprintf("REAL ServerAuthHandler: client %d's control connection c%d is registered on node %d, but after step %d %v the runtime state read on node %d says %v",
 						x, curC, curN, i, o, m+1, step.State[m])
@@ -149,6 +164,9 @@ func runRealAuth(in realIn) *realOut {
 				}
 				if step.Index[m] != want {
 					out.PropOK, out.PropKey = false, "tunnel-handshake-moves-client-index"
+					if lost {
+						out.PropKey = "unanswered-handshake-took-the-index"
+					}
 					out.PropMsg = fmt.Sprintf("REAL ServerAuthHandler: client %d's control connection c%d is registered on node %d, but after step %d %v FindClientNode on node %d says %v",
 						x, curC, curN, i, o, m+1, step.Index[m])
 					break
